@@ -1151,12 +1151,13 @@ class TruthfulQueries:
         while self.ci < len(calls):
             c = calls[self.ci]
             self.ci += 1
+            # (by object, not by name: a plan may repeat a name)
             if c["kind"] == "alloc_handed":
-                if c["obs"] not in self.queued:
-                    self.queued.append(c["obs"])
+                if (c["obs"], c.get("oid")) not in self.queued:
+                    self.queued.append((c["obs"], c.get("oid")))
             elif c["kind"] == "hot_remove" and c["ret"]:
-                if c["obs"] in self.queued:
-                    self.queued.remove(c["obs"])
+                if (c["obs"], c.get("oid")) in self.queued:
+                    self.queued.remove((c["obs"], c.get("oid")))
         return self.queued
 
     def _v(self, run, clause, cause, detail):
@@ -1203,7 +1204,7 @@ class TruthfulQueries:
         if si and q:
             self._v(run, "C19.scheduler-idle",
                     "idle-while-observation-in-allocation-loop",
-                    {"handed-over-and-not-finished": list(q)})
+                    {"handed-over-and-not-finished": [n for n, _ in q]})
         if ti:
             unfinished = [o.name for o in sim.instrument.observations
                           if o.status.value != "FINISHED"]
